@@ -150,6 +150,35 @@ class Loaded:
         exec(compile(tree, path, 'exec'), m.__dict__)
         return m
 
+    # -- mutable state kept by the loaded code between calls (module-level containers, mutable default arguments):
+    #    one explored path models one process run, so the state is put back to its load-time value before every path
+    def snapshot_state(self):
+        import copy
+        self._state = []
+        for m in list(self.mods.values()):
+            for k, v in list(m.__dict__.items()):
+                if k.startswith('__'):
+                    continue
+                if isinstance(v, (dict, list, set)):
+                    self._state.append((v, copy.deepcopy(v)))
+                fns = [v] if isinstance(v, types.FunctionType) else ([f for f in vars(v).values() if isinstance(f, types.FunctionType)] if isinstance(v, type) else [])
+                for f in fns:
+                    for d in list(f.__defaults__ or ()) + list((f.__kwdefaults__ or {}).values()):
+                        if isinstance(d, (dict, list, set)):
+                            self._state.append((d, copy.deepcopy(d)))
+
+    def reset_state(self):
+        import copy
+        for obj, snap in getattr(self, '_state', ()):
+            if isinstance(obj, dict):
+                obj.clear()
+                obj.update(copy.deepcopy(snap))
+            elif isinstance(obj, list):
+                obj[:] = copy.deepcopy(snap)
+            else:
+                obj.clear()
+                obj.update(copy.deepcopy(snap))
+
     def __getattr__(self, name):
         # lf = linear_fit etc. resolved lazily: L.rdp, L.linear_fit, L.uts_gradient
         if name.startswith('uts_'):
@@ -158,6 +187,13 @@ class Loaded:
             return self._get('kneeliverse.' + name)
         except FileNotFoundError:
             raise AttributeError(name)
+
+
+def _plain_eq(a, b):
+    try:
+        return type(a) is type(b) and bool(a == b)
+    except Exception:
+        return False
 
 
 def _div(a, b):
